@@ -322,6 +322,21 @@ func genC10(seed int64, tier string) []caseOut {
 			emit(fmt.Sprintf("systematic,restate-service-%d", j), mkDoc(), A{M{"action": "add-services", "services": A{validService(fr, "s"+ids[j]), validService(fr, "snew")}}})
 			emit(fmt.Sprintf("systematic,restate-aka-%d", j), mkDoc(), A{M{"action": "add-also-known-as", "uris": A{fmt.Sprintf("https://aka.example/%d", j), "https://aka.example/new"}}})
 		}
+		// key ids and service ids are separate name spaces: an entry added under an id the other list holds is new
+		{
+			d := M{"publicKey": A{validKey(fr, "shared1")}, "service": A{validService(fr, "shared2")}}
+			emit("systematic,service-with-a-key-id", d, A{M{"action": "add-services", "services": A{validService(fr, "shared1")}}})
+			emit("systematic,key-with-a-service-id", d, A{M{"action": "add-public-keys", "publicKeys": A{validKey(fr, "shared2")}}})
+			emit("systematic,both-with-the-other-id", d, A{M{"action": "add-public-keys", "publicKeys": A{validKey(fr, "shared2"), validKey(fr, "shared1")}},
+				M{"action": "add-services", "services": A{validService(fr, "shared1"), validService(fr, "shared2")}}})
+		}
+		// a test operation on text an HTML-safe encoder would escape, on -0 and on U+2028: the document's
+		// value and the operation's value are the same value
+		for j, val := range []interface{}{"https://example.com/?user=alice&lang=en", "a<b>c", "line\u2028sep", "plain", M{"q": "x&y", "n": 1.0}, A{"<", ">", "&"}} {
+			d := M{"note": val, "other": "o"}
+			emit(fmt.Sprintf("systematic,test-on-html-sensitive-text-%d", j), d,
+				A{M{"action": "ietf-json-patch", "patches": A{M{"op": "test", "path": "/note", "value": val}, M{"op": "add", "path": "/seen", "value": true}}}})
+		}
 		// an add that names a new id first and an existing id afterwards, on lists of every length 1..9
 		// (new entries appended, the existing one replaced in place whatever was appended before it)
 		for n := 1; n <= 9; n++ {
@@ -501,6 +516,11 @@ func genC11(seed int64, tier string) []caseOut {
 				}
 				// the same operation at later positions of a list: after operations without and with a `from`
 				first := opsList[0][0]
+				// ... and after an operation carrying members it has no use for, present but null
+				opsList = append(opsList,
+					A{M{"op": "add", "path": "/note", "value": "x", "from": nil}, first},
+					A{M{"op": "test", "path": "/other/k", "value": 1.0, "from": nil}, first},
+					A{M{"op": "remove", "path": "/other/k", "from": nil, "value": nil}, first})
 				opsList = append(opsList,
 					A{M{"op": "add", "path": "/note", "value": "x"}, first},
 					A{M{"op": "copy", "from": "/other", "path": "/note"}, M{"op": "test", "path": "/other/k", "value": 1.0}, first},
@@ -590,6 +610,40 @@ func genC11(seed int64, tier string) []caseOut {
 			{ietf(addOp("/verificationMethod", A{k2})), noKeys},
 			{ietf(addOp("/services", A{s2})), ietf(M{"op": "move", "from": "/services", "path": "/serviceList"}), noSvcs},
 		}
+		// ietf-json-patches before, between and after dedicated actions that do change the keys and
+		// services (one delta, one ApplyPatches call): every patch works on what the one before left
+		{
+			d := M{"publicKey": A{k1}, "service": A{s1, s2}, "other": M{"k": 1.0}}
+			rmS := M{"action": "remove-services", "ids": A{"svc1"}}
+			addK := M{"action": "add-public-keys", "publicKeys": A{k2}}
+			mixed := []A{
+				{ietf(addOp("/note", "a")), rmS, ietf(addOp("/note2", "b"))},
+				{ietf(addOp("/note", "a")), addK, ietf(addOp("/note2", "b"))},
+				{ietf(addOp("/note", "a")), rmS, addK, ietf(M{"op": "remove", "path": "/note"}), M{"action": "remove-public-keys", "ids": A{"key1"}}, ietf(addOp("/note3", "c"))},
+				{rmS, ietf(addOp("/note", "a")), addK, ietf(addOp("/note2", "b"))},
+				{ietf(M{"op": "test", "path": "/other/k", "value": 1.0}), rmS, ietf(M{"op": "test", "path": "/other/k", "value": 1.0}), addK},
+			}
+			for mi, ps := range mixed {
+				allValid := true
+				for _, p := range ps {
+					if v, _ := implValidate(p.(M)); !v {
+						allValid = false
+					}
+				}
+				var res M
+				ok := false
+				if allValid {
+					res, ok, _, _ = implApply(d, ps)
+				}
+				h := sha256.Sum256([]byte(fmt.Sprint("mixed", mi)))
+				out = append(out, caseOut{
+					Coq:    fmt.Sprintf("(mk_c11mixed %s %s %s %s)", cObj(normJSON(d).(map[string]interface{})), cJSON(normJSON(ps))[len("(JArr "):len(cJSON(normJSON(ps)))-1], cBool(allValid), coqOptObj(res, ok)),
+					Rec:    map[string]interface{}{"document": d, "patches": ps, "impl_all_valid": allValid, "impl_applied": ok, "impl_result": res},
+					Label:  fmt.Sprintf("mixed-sequence:%d", mi),
+					NonTri: fmt.Sprintf("%x", h[:8]),
+				})
+			}
+		}
 		for di, doc := range docs {
 			for si, ps := range seqs {
 				allValid := true
@@ -650,6 +704,15 @@ func genC14(seed int64, tier string) []caseOut {
 				ks[0].(M)["id"] = randID(r, 50)
 				label += ",id-50"
 			}
+		}
+		if i >= 4 && i < 6 && inClass {
+			// a key and a service under the same id (ids are per list): both come back
+			doc["publicKey"] = A{validKey(r, "primary"), validKey(r, "second")}
+			doc["service"] = A{validService(r, "primary"), validService(r, "third")}
+			if i == 5 {
+				doc["service"] = A{validService(r, "third"), validService(r, "second"), validService(r, "primary")}
+			}
+			label = "doc:in-class,key-and-service-share-an-id"
 		}
 		if i < 4 && inClass {
 			// systematic: a key / service list that names an id twice (first and last entry, another in
@@ -770,6 +833,56 @@ func genC14(seed int64, tier string) []caseOut {
 			Label:  c.label,
 			NonTri: fmt.Sprintf("%x", h[:8]),
 		})
+	}
+	// patches from the constructors validated by several goroutines at once (each its own patch): valid
+	// input passes validation whoever else is validating
+	{
+		fr := rand.New(rand.NewSource(14))
+		const workers, rounds = 8, 300
+		ps := make([]patch.Patch, workers)
+		for k := range ps {
+			kb, _ := json.Marshal(A{validKey(fr, fmt.Sprintf("wk%da", k)), validKey(fr, fmt.Sprintf("wk%db", k))})
+			sb, _ := json.Marshal(A{validService(fr, fmt.Sprintf("ws%da", k)), validService(fr, fmt.Sprintf("ws%db", k))})
+			var err error
+			switch k % 3 {
+			case 0:
+				ps[k], err = patch.NewAddPublicKeysPatch(string(kb))
+			case 1:
+				ps[k], err = patch.NewAddServiceEndpointsPatch(string(sb))
+			default:
+				ps[k], err = patch.NewReplacePatch(`{"publicKeys":` + string(kb) + `,"services":` + string(sb) + `}`)
+			}
+			if err != nil {
+				panic(err)
+			}
+		}
+		valid := make([]bool, workers)
+		var wg sync.WaitGroup
+		for k := range ps {
+			wg.Add(1)
+			go func(k int) {
+				defer wg.Done()
+				defer func() { recover() }()
+				ok := true
+				for j := 0; j < rounds && ok; j++ {
+					ok = patchvalidator.Validate(ps[k]) == nil
+				}
+				valid[k] = ok
+			}(k)
+		}
+		wg.Wait()
+		for k, p := range ps {
+			pb, _ := json.Marshal(p)
+			var pj interface{}
+			json.Unmarshal(pb, &pj)
+			h := sha256.Sum256(append([]byte("concurrent-validation"), pb...))
+			out = append(out, caseOut{
+				Coq:    fmt.Sprintf("(mk_c14ctor %s %s %s)", cJSON(normJSON(pj)), urlOracle(pj), cBool(valid[k])),
+				Rec:    map[string]interface{}{"patch": pj, "impl_valid_under_concurrency": valid[k]},
+				Label:  "ctor:validated-concurrently",
+				NonTri: fmt.Sprintf("%x", h[:8]),
+			})
+		}
 	}
 	// the eight constructors on valid input
 	for i := 0; i < 6; i++ {
